@@ -6,7 +6,9 @@ than recorded, reports success, but does not record the new layout (fix never wr
                    --test-parity-limit gives split 0 room for 5 blocks only)
   fix             -> exit 0, "Everything OK"; files are [5120, 3072]: blocks 5..7 were written to split 1
   check           -> the content file still says [8192, 0]: 3 errors (blocks 5..7 are looked up in split 0)
-  sync            -> parity_chsize records [5120, 3072]; check passes again
+  sync            -> since /repo 03a455c refused ("parity files are smaller than expected": the interlock looks at the bytes really
+                     present); before, it silently recorded [5120, 3072]
+  sync -F         -> records [5120, 3072] and recomputes; check passes again
 
 Between the fix and the next sync the address map of the content file does not match the parity on disk; a data disk lost
 in that window cannot use those parity blocks.  Run: python3 harness/py/c17_repro_fix_relayout.py
@@ -40,8 +42,13 @@ def reproduce(tool, D):
     res['limit'] = L
     res['fix_rc'] = sr(['fix'], L)[0]; res['sizes_after_fix'] = sz()
     rc, out = sr(['check'], L); res['check_after_fix_rc'] = rc; res['check_after_fix_tail'] = ' '.join(out.split()[-8:])
-    res['sync2_rc'] = sr(['sync'], L)[0]; res['sizes_after_sync2'] = sz()
+    rc, out = sr(['sync'], L); res['sync2_rc'] = rc; res['sync2_refused_by_interlock'] = rc != 0 and 'smaller than expected' in out
+    if rc != 0:
+        res['sync2_forced_rc'] = sr(['-F', 'sync'], L)[0]
+    res['sizes_after_sync2'] = sz()
     res['check_after_sync2_rc'] = sr(['check'], L)[0]
+    res['healed'] = ((rc == 0 or (res['sync2_refused_by_interlock'] and res['sync2_forced_rc'] == 0)) and
+                     sum(res['sizes_after_sync2']) == 8192 and res['check_after_sync2_rc'] == 0)
     res['observed'] = res['fix_rc'] == 0 and res['check_after_fix_rc'] != 0
     return res
 
